@@ -145,7 +145,7 @@ def molecules(ctx):
     rng = ctx.rng
     out = list(molgen.handmade())
     out += [(t, molgen.parse(t)) for t in SYMMETRIC + STEREO_PAIRS + ISOTOPES + EXPLICIT_H_STEREO + ez_catalogue() + OLIGOMERS
-            + RADICALS + COORDINATED + ALLENES + PI_STEREO + oligomers(rng, 30 if ctx.quick else 200) if molgen.parse(t) is not None]
+            + RADICALS + COORDINATED + ALLENES + PI_STEREO + RING_EZ + oligomers(rng, 30 if ctx.quick else 200) if molgen.parse(t) is not None]
     out += molgen.corpus(rng, 300 if ctx.quick else 1500)
     n_small = 5 if ctx.quick else 6
     graphs = [g for k in range(2, n_small + 1) for g in molgen.unlabeled_small_graphs(k)]
@@ -1040,6 +1040,186 @@ def reread_rdkit(rng, text, kekule):
     return t, normalise(smiles(t))
 
 
+
+# cis/trans double bonds INSIDE rings of >= 8 atoms, next to ring-closure bonds, in macrocycles, exocyclic to rings: another
+# toolkit writes the direction mark of a ring-closure bond at the closing digit only, chython's writer at both digits, a
+# hand can write it at the opening digit only -- three branches of the reader
+RING_EZ = [
+    'C1CCCCC/C=C/CCCC1', 'C1CCCCC/C=C\\CCCC1', 'C/C1=C\\CCCCCCCCC1', 'C/C1=C/CCCCCCCCC1', 'O=C1CCCC/C=C/CCCCO1',
+    'O=C1CCCC/C=C\\CCCCO1', 'CC1CCCC/C=C/C=C\\CCCC1', 'CC1CCCC/C=C/C=C/CCCC1', 'OC1CC/C=C\\CCC1', 'OC1CC/C=C/CCC1',
+    'C1CCC/C=C/CC1', 'C1CCC/C=C\\CC1', 'C1CCCC/C=C/CCC1', 'C1CCCC/C=C\\CCC1', 'O=C1CCCCCCC/C=C\\CCCCCO1',
+    'O=C1CCCCCCC/C=C/CCCCCO1', 'C1CC/C=C/CCC/C=C\\CC1', 'C1CC/C=C/CCC/C=C/CC1', 'C1CC/C=C\\CCC/C=C\\CC1',
+    'CC1CCCCCC/C(C)=C/CCC1', 'CC1CCCCCC/C(C)=C\\CCC1', 'N1CCCC/C=C/CCCCC1', 'O1CCCC/C=C\\CCCCC1', 'C1CCCC/C=C/CCCCS1',
+    'C[C@H]1CCCC/C=C/CCCCO1', 'C[C@@H]1CCCC/C=C\\CCCCO1', 'O=C1CCC/C=C/CC[C@H](C)OC(=O)CC1', 'ClC1=C/CCCCCCCCCC/1',
+    'C/C=C1/CCCC(O)C1', 'C/C=C1\\CCCC(O)C1', 'C/C=C1/CCCCC1C', 'O/N=C1/CCCCC1C', 'O/N=C1\\CCCCC1C', 'C/C=C/C1CCCCC1',
+    'C/C=C\\C1CCCCC1', 'c1ccccc1/C=C/c1ccccc1', 'c1ccccc1/C=C\\c1ccccc1', 'c1ccccc1/C=C/C', 'C(/C=C/c1ccccc1)c1ccccc1',
+    'F/C=C/C1CCC(/C=C\\Cl)CC1O', 'C1CCCCC/C=C/CCCC1.C/C=C/C', 'CC(=O)O[C@H]1CCCC/C=C/CCCC1', 'C1CCCCCC/C=C/C=C/CCCC1',
+    'C1CCCCCC/C=C\\C=C/CCCC1', 'O=C1/C=C/CCCCCCCCCC1', 'O=C1/C=C\\CCCCCCCCCC1', 'C1CCCCCC/N=N/CCCCC1',
+]
+
+
+def rdkit_canonical(text):
+    """the other toolkit's own canonical isomeric SMILES of a spelling: the independent referee of 'same stereoisomer'"""
+    from rdkit import Chem
+    m = Chem.MolFromSmiles(text)
+    if m is None:
+        return None
+    return Chem.MolToSmiles(m)
+
+
+def _mark_variants(t):
+    """candidate re-placements of the direction mark of a ring-closure bond: closing digit only (as the other toolkit writes
+    it), opening digit only, both digits, every direction; the referee decides afterwards which of them spell the same isomer"""
+    import re
+    if re.search(r'\[[^\]]*\d', t) or '%' in t:
+        return []
+    out = []
+    for mt in re.finditer(r'([/\\])(\d)', t):
+        mark, digit = mt.group(1), mt.group(2)
+        first = t.find(digit)
+        while first >= 0 and first > 0 and t[first - 1] in '/\\':
+            first = t.find(digit, first + 1)
+        if first < 0 or first >= mt.start():
+            continue   # the marked digit is the opening one
+        for om in '/\\':
+            both = t[:first] + om + t[first:]
+            j = both.find(mark + digit, first + 2)
+            if j >= 0:
+                # (both digits, opening digit only). Two marks on one bond are a valid spelling only if they do not
+                # contradict each other: `a/1 … b\\1` (a/b and b\\a are one direction); `a/1 … b/1` is contradictory and
+                # toolkits resolve it differently (the other toolkit: closing mark wins; chython: opening mark wins)
+                out.append((both if om != mark else None, both[:j] + both[j + 1:]))
+    return out
+
+
+def toolkit_spellings(rng, text, nrand):
+    """spellings of `text` by the other toolkit (rooted at every atom, seeded random) and re-placements of ring-closure
+    direction marks; only those the referee reads as the same stereoisomer as `text`"""
+    from rdkit import Chem
+    rd = Chem.MolFromSmiles(text)
+    ref = rdkit_canonical(text)
+    if rd is None or ref is None:
+        return None, []
+    cand = []
+    for i in range(rd.GetNumAtoms()):
+        try:
+            cand.append(Chem.MolToSmiles(rd, rootedAtAtom=i, canonical=False))
+        except Exception:  # noqa
+            pass
+    try:
+        cand += list(Chem.MolToRandomSmilesVect(rd, nrand, randomSeed=rng.randrange(1, 2 ** 31)))
+    except Exception:  # noqa
+        pass
+    cand = list(dict.fromkeys(cand))
+    out = []
+    for t in cand:
+        try:
+            if rdkit_canonical(t) != ref:
+                continue
+        except Exception:  # noqa
+            continue
+        out.append(t)
+        for both, opening in _mark_variants(t):
+            try:
+                if rdkit_canonical(opening) == ref:
+                    out.append(opening)
+                    if both is not None and rdkit_canonical(both) == ref:
+                        out.append(both)
+            except Exception:  # noqa
+                continue
+    return ref, list(dict.fromkeys(out))
+
+
+def mark_form(t):
+    """which reader branch a spelling exercises (distribution tag)"""
+    import re
+    marked = {(m.start(2), m.group(2)) for m in re.finditer(r'([/\\])(\d)', t)}
+    if not marked:
+        return 'marks-on-chain-bonds-only'
+    kinds = set()
+    for pos, d in marked:
+        first = t.find(d)
+        others = [p for p, dd in marked if dd == d]
+        if len(others) >= 2:
+            kinds.add('both-digits')
+        elif pos == first:
+            kinds.add('opening-digit-only')
+        else:
+            kinds.add('closing-digit-only')
+    return '+'.join(sorted(kinds))
+
+
+def cross_toolkit(ctx, texts=None, nrand=None):
+    """'re-read from another toolkit's spelling' for ring / macrocycle cis-trans bonds, judged twice: (1) chython's canonical
+    string, == and hash of every spelling against the first one; (2) independently of chython's self-consistency, the other
+    toolkit's canonical isomeric SMILES of chython's RE-WRITTEN string against that of the spelling (configuration oracle)."""
+    from chython import smiles
+    rng = ctx.rng
+    nrand = nrand or (12 if ctx.quick else 60)
+    for text in (texts if texts is not None else RING_EZ):
+        try:
+            base = normalise(smiles(text))
+        except Exception as e:  # noqa
+            ctx.dist('R:xtk:skipped:' + type(e).__name__)
+            continue
+        try:
+            if in_domain(base):
+                ctx.dist('R:xtk:filtered')
+                continue
+        except Exception:  # noqa
+            continue
+        ref, spellings = toolkit_spellings(rng, text, nrand)
+        if ref is None:
+            continue
+        s0, h0 = describe(base)
+        nb = sum(1 for _, _, b in base.bonds() if b._stereo is not None)
+        for t in spellings:
+            try:
+                m2 = normalise(smiles(t))
+            except Exception as e:  # noqa
+                ctx.dist('R:xtk:skipped:spelling-not-read:' + type(e).__name__)
+                continue
+            if census(m2) != census(base):
+                ctx.dist('R:xtk:skipped:census-differs')
+                continue
+            form = mark_form(t)
+            ctx.dist('R:xtk:' + form)
+            ok = compare(ctx, text, base, s0, h0, 'reread-other-toolkit-spelling:' + form, m2, t, spellings=(text, t))
+            # (2) configuration oracle: what chython writes back must be, for the other toolkit, the isomer that was read
+            s1 = str(m2).split(' ')[0]
+            try:
+                back = rdkit_canonical(s1)
+            except Exception:  # noqa
+                back = None
+            ctx.count(('R', 'xtk-configuration', t), True)
+            if back is None:
+                ctx.dist('R:xtk:configuration-oracle:rewritten-string-not-read-by-the-other-toolkit')
+                continue
+            from rdkit import Chem
+            nrd = sum(1 for b in Chem.MolFromSmiles(s1).GetBonds() if str(b.GetStereo()) not in ('STEREONONE', 'STEREOANY'))
+            if nrd != nb:
+                ctx.dist('R:xtk:configuration-oracle:toolkits-disagree-on-what-is-stereogenic')
+                continue
+            ctx.dist('R:xtk:configuration-oracle:checked')
+            if back != ref and ok:
+                # every spelling tried is misread the same way: no pair of spellings differs. Look for one that does.
+                ctx.cov['disagreements_checked'] += 1
+                found = False
+                for t2 in [ref, text] + spellings:
+                    try:
+                        m3 = normalise(smiles(t2))
+                    except Exception:  # noqa
+                        continue
+                    if census(m3) == census(m2) and (str(m3) != str(m2)):
+                        found = not compare(ctx, text, m2, str(m2), hash(m2), 'configuration-changed-by-read+write', m3, t2,
+                                            spellings=(t, t2))
+                        if found:
+                            break
+                if not found:
+                    ctx.broke('relational', 'configuration oracle (other toolkit) on chython read + write',
+                              f'{t!r} read and written back as {s1!r}: the other toolkit reads {back!r}, expected {ref!r}')
+
+
 # ------------------------------------------------------------------------------------------------
 # R: relational validation of the canonical string (real code on both sides)
 # ------------------------------------------------------------------------------------------------
@@ -1353,7 +1533,7 @@ def shrink(rng, mol, sig, budget=60):
     return (cur, best) if best else None
 
 
-def compare(ctx, name, base, s0, h0, kind, other, detail, mapping=None, history=None):
+def compare(ctx, name, base, s0, h0, kind, other, detail, mapping=None, history=None, spellings=None):
     """one relational case: `other` is a second description of the structure `base`."""
     from .. import wire
     try:
@@ -1385,6 +1565,12 @@ def compare(ctx, name, base, s0, h0, kind, other, detail, mapping=None, history=
                  f'{kind}: {name}: {s0!r} vs {s1!r}; ==: {eq}; hash equal: {h0 == h1}',
                  {'kind': 'history', 'history': history[0], 'seed': history[1], 'name': name, 'a': wire.mol_to_ints(base),
                   'str_a': s0, 'str_b': s1})
+        return False
+    if spellings is not None:
+        ctx.fail(sig.replace('canonical-string-differs', 'canonical-string-differs-between-spellings-of-another-toolkit'),
+                 f'{kind}: {spellings[0]!r} vs {spellings[1]!r} (one stereoisomer for the other toolkit): {s0!r} vs {s1!r}; '
+                 f'==: {eq}; hash equal: {h0 == h1}',
+                 {'kind': 'toolkit-spellings', 'a': spellings[0], 'b': spellings[1], 'str_a': s0, 'str_b': s1})
         return False
     shrunk_from = None
     if sig not in (KF_COMPONENT, KF_TIE) and s1 != s0 and not s1.startswith('<') and len(base) > 4 \
@@ -1440,7 +1626,7 @@ def relational_molecules(ctx):
     rng = ctx.rng
     out = []
     for s in molgen.HANDMADE + SYMMETRIC + STEREO_PAIRS + ISOTOPES + EXPLICIT_H_STEREO + ez_catalogue() + OLIGOMERS \
-            + RING_JUNCTION_STEREO + RADICALS + COORDINATED + DONORS + ALLENES + multi_component_stereo(rng, 30 if ctx.quick else 200) \
+            + RING_JUNCTION_STEREO + RADICALS + COORDINATED + DONORS + ALLENES + RING_EZ + multi_component_stereo(rng, 30 if ctx.quick else 200) \
             + oligomers(rng, 50 if ctx.quick else 250):
         m = molgen.parse(s)
         if m is not None:
@@ -1624,6 +1810,8 @@ def relational(ctx, mols=None, nvar=None):
                 compare(ctx, name, base, s0, h0, 'all-permutations', c, perm, dict(zip(nums, perm)))
         ctx.notes.append(f'exhaustive sub-domain: all n! numberings of every small molecule (<= {nmax} atoms) of the run, '
                          'for atoms_order (K) and for the canonical string (R); the property domain as a whole is sampled')
+    if mols is None:
+        cross_toolkit(ctx)
     certify_pairs(ctx)
     ctx.cov['programs'] = ctx.cov.get('programs', 0) + 3  # Smiles.__str__, __eq__, __hash__
 
@@ -1677,6 +1865,9 @@ def search(ctx):
             deco += [(f'{t}{tag}', None, c) for tag, c in attachment_decorations(ctx.rng, m, per_class=3)]
     pools = [first, [(s, s, molgen.parse(s)) for s in cat if molgen.parse(s) is not None], deco]
     before = len(ctx.failures)
+    cross_toolkit(ctx, nrand=40)
+    if any(f.signature not in (KF_COMPONENT, KF_TIE) for f in ctx.failures[before:]):
+        return
     for pool in pools:
         relational(ctx, pool, nvar=12)
         if any(f.signature not in (KF_COMPONENT, KF_TIE) for f in ctx.failures[before:]) or time.time() > t_end:
@@ -1825,6 +2016,17 @@ def probe(inp):
         fails = same and (sa != sb or not eq or ha != hb)
         return fails, (f'the molecule and the object reached through the public-API history {inp["history"]!r} (seed {inp["seed"]}; '
                        f'same atoms, bonds and label counts: {same}): str {sa!r} vs {sb!r}; ==: {eq}; hash equal: {ha == hb}')
+    if inp.get('kind') == 'toolkit-spellings':
+        from chython import smiles
+        ra, rb = rdkit_canonical(inp['a']), rdkit_canonical(inp['b'])
+        same = ra is not None and ra == rb
+        a, b = normalise(smiles(inp['a'])), normalise(smiles(inp['b']))
+        sa, sb = str(a), str(b)
+        eq = (a == b) and (b == a)
+        he = hash(a) == hash(b)
+        fails = same and (sa != sb or not eq or not he)
+        return fails, (f'two SMILES spellings {inp["a"]!r}, {inp["b"]!r}; the other toolkit canonicalises both to {ra!r} '
+                       f'(same stereoisomer: {same}); chython: str {sa!r} vs {sb!r}; ==: {eq}; hash equal: {he}')
     if inp.get('kind') == 'two-spellings':
         from chython import smiles
         a, b = normalise(smiles(inp['a'])), normalise(smiles(inp['b']))
